@@ -61,6 +61,13 @@ def check(ctx):
         if np.linalg.det(sc_l["lattice"]) < 0:
             variants_.append((sc_l, ex[1], np.asarray(ex[2])[:, [1, 0, 2]]))
             ctx.count("left-handed-variant")
+    # the crystal turned by 180 degrees about b: basis vectors a and c negated (right-handed, but an axis-aligned cell no longer has a
+    # positive diagonal: L r L^-1 differs from r by signs)
+    sgn = np.array([-1, 1, -1])
+    for ex in [v for v in variants_ if not v[0]["name"].endswith(("-lefthanded", "-4decimals"))][1::3]:
+        sc_n = {**ex[0], "lattice": np.asarray(ex[0]["lattice"], float) * sgn[:, None], "positions": (np.asarray(ex[0]["positions"], float) * sgn) % 1.0, "name": ex[0]["name"] + "-a,c-negated"}
+        variants_.append((sc_n, ex[1], (np.asarray(ex[2]) * sgn) % ex[1]))
+        ctx.count("two-axes-negated-variant")
     for sc0, D, P0 in variants_:
         rots, trans = symmetry_ops(sc0)
         descrs = [("ideal", sc0, np.arange(len(sc0["numbers"])))] + hostile_descriptions(sc0, rng)
